@@ -1,10 +1,11 @@
 (* Property C16 — a scenario means the same whether written in HCL or in YAML.  PARTIAL BY DESIGN: the YAML, HCL
    (incl. locals and the collection functions) and mapstructure libraries are oracles; the theorems cover the
    struct/tag layer pandora itself defines: the map AmmoHCL -> yaml keys (hcl.go) against the keys config.AmmoConfig
-   accepts.  Statements only; proofs in Proofs/TagTablesProofs.v, Gen/ScenarioTags_bridge.v. *)
+   accepts; and (theorems C16_locals_...) the locals stage pandora itself implements in hcl.go decodeLocals (which block sees
+   which local), over a fragment of the expression language.  Statements only; proofs in Proofs/TagTablesProofs.v, Gen/ScenarioTags_bridge.v. *)
 From Coq Require Import List NArith ZArith Bool QArith.
-From PV Require Import Model.ConfigDecode Model.TagTables Proofs.ConfigDecodeProofs Proofs.TagTablesProofs
-  Gen.ConfigSchemaGen Gen.ScenarioTagsGen Gen.ScenarioTags_bridge.
+From PV Require Import Model.ConfigDecode Model.TagTables Model.HclLocals Proofs.ConfigDecodeProofs Proofs.TagTablesProofs
+  Proofs.HclLocalsProofs Gen.ConfigSchemaGen Gen.ScenarioTagsGen Gen.ScenarioTags_bridge.
 Import ListNotations.
 Local Open Scope N_scope.
 
@@ -72,3 +73,68 @@ Example C16_example_request :
   (match ex_decode ex_yaml_tree with Ok _ => true | _ => false end) = true /\
   norm_res (ex_decode (marshal_by_tags gen_hcl_root ex_hcl_vals)) = norm_res (ex_decode ex_yaml_tree).
 Proof. vm_compute. split; reflexivity. Qed.
+
+(* ================================================================================================================
+   The locals stage (hcl.go decodeLocals / decodeLocalBlock / mergeMaps; Model/HclLocals.v): "HCL-only conveniences
+   such as locals blocks ... are fully evaluated before conversion".  For ANY number of locals blocks and any body. *)
+
+(* The accumulator loop of the code means what the specification says: a reference local.n denotes the nearest
+   definition of n in a block above, evaluated at its own place; the body sees every block; the file is rejected
+   exactly when some definition does not evaluate at its place (or a block sets a name twice). *)
+Theorem C16_locals_fully_evaluated :
+  forall blocks body, parse_hcl blocks body = spec_locals blocks body.
+Proof. exact parse_hcl_is_spec. Qed.
+Print Assumptions C16_locals_fully_evaluated.
+
+(* A local is visible any number of blocks below its definition: with the blocks `before ++ b :: between` decoded,
+   a name that b defines and no block of `between` redefines has, for every later block and for the body, the value of
+   b's expression evaluated under the blocks before b -- however many blocks lie between. *)
+Theorem C16_locals_reach_any_block :
+  forall before b between vars n e,
+    decode_locals (before ++ b :: between) = Some vars ->
+    assoc n b = Some e ->
+    (forall m, In m between -> assoc n m = None) ->
+    assoc n vars = eval_with (lookup_above (rev before)) e.
+Proof. exact locals_reach_any_block. Qed.
+Print Assumptions C16_locals_reach_any_block.
+
+(* Locals are a convenience: an accepted description reads exactly like the description with every reference
+   replaced by its defining expression -- which has no reference left and no locals block. *)
+Theorem C16_locals_are_a_convenience :
+  forall blocks body vals,
+    parse_hcl blocks body = Some vals ->
+    exists body', map_opt (inline_body blocks) body = Some body' /\
+                  forallb ref_free body' = true /\
+                  parse_hcl [] body' = Some vals.
+Proof. exact parse_hcl_inlined. Qed.
+Print Assumptions C16_locals_are_a_convenience.
+
+(* ---- non-vacuity: the layering of docs/eng/scenario/locals.md continued by one block -- the third block builds on a
+   local of the FIRST one and extends a name of its own above; the body uses all three. *)
+Definition n_common : str := [99;111;109;109;111;110].
+Definition n_auth : str := [97;117;116;104].
+Definition n_admin : str := [97;100;109;105;110].
+Definition n_api : str := [97;112;105].
+Definition ex_blocks : list block :=
+  [ [(n_common, ELit (LM [([67;84], [106;115;111;110])])); (n_api, ELit (LS [47;97;112;105]))];
+    [(n_auth, EMerge (ERef n_common) (ELit (LM [([65], [66])])))];
+    [(n_admin, EMerge (ERef n_common) (ELit (LM [([88], [49])])));
+     (n_api, ECat (ERef n_api) (ELit (LS [47;118;50])))] ].
+Definition ex_body : list lexpr := [ERef n_auth; ERef n_admin; ECat (ERef n_api) (ELit (LS [47;120]))].
+
+Example C16_locals_example_three_blocks :
+  parse_hcl ex_blocks ex_body =
+    Some [LM [([67;84], [106;115;111;110]); ([65], [66])];
+          LM [([67;84], [106;115;111;110]); ([88], [49])];
+          LS [47;97;112;105;47;118;50;47;120]] /\
+  (exists vars, decode_locals ex_blocks = Some vars /\
+     assoc n_common vars = eval_with (lookup_above (rev [])) (ELit (LM [([67;84], [106;115;111;110])]))) /\
+  (* a reference to a name no block above defines rejects the file *)
+  parse_hcl [[(n_auth, ERef n_common)]; [(n_common, ELit (LS []))]] [] = None.
+Proof.
+  split; [vm_compute; reflexivity|]. split; [|vm_compute; reflexivity].
+  destruct (decode_locals ex_blocks) as [vars|] eqn:D; [|vm_compute in D; discriminate].
+  exists vars. split; [reflexivity|].
+  apply (C16_locals_reach_any_block [] (nth 0 ex_blocks []) (tl ex_blocks) vars n_common); auto.
+  intros m [H|[H|[]]]; subst m; reflexivity.
+Qed.
